@@ -21,7 +21,8 @@ RULE = ("every non-degenerate (exact) RLC + ideal-source circuit of the listed l
         "the small levels, singles plus four mixed pairs at the larger) on a uniform grid h = tau_min/20 (and /50 thorough); "
         "every node and element is queried at every sample; plus one settling run with constant inputs and one with a "
         "sinusoidal input per circuit; states = distinct (circuit, grid), transitions = simulations judged; "
-        "non-trivial = simulation with a non-zero state trajectory")
+        "non-trivial = simulation with a non-zero state trajectory"
+        ' Additions: per circuit a triple of simulations (grid t; grid 2t with C and L doubled; grid t + 37h with shifted inputs, time array untouched); zero-nominal voltage sources; small-signal variant; node names that are element ids.')
 ASSUMPTIONS = ["mpmath.expm at 30 digits gives the exact zero-order/first-order-hold propagator", "the model (A,B,C,D) is first identified with the exact transfer function at 10 frequencies inside this check",
                "sampled sinusoids are treated as piecewise linear, so the periodic steady state is compared with tolerance 1e-3"]
 EXPLANATION = "direct exploration of the real TransientSolution against the exact piecewise-linear response of the identified model and sample-wise circuit laws"
